@@ -87,6 +87,7 @@ func fieldInvoke(ins ssa.Instruction, named *types.Named, field, name string) *s
 }
 
 func runC10(c *core.Ctx) {
+	runFixtures(c, "drop")
 	c.Explain("Structural clauses of C10 decided from source (thin: byte/metadata equality with the source is behaviour): (R10.1) in the cache FS's Open the source is opened for content only under the ErrNotExist edge of the cache look-up of the same name, every other look-up error returns; (R10.2) on every path after a successful fill the returned handle was rewound with a successful SeekFile(f, 0, SeekStart) or is re-opened from the cache; (R10.3) the memoised FileInfo stored in the info table is the result of Stat() on a handle obtained from the source, stored only on its nil-error edge, under the name it was asked for; (R10.4) the cache's directory handle lists through the source file system and stats through the same memoised Stat. NOT claimed: that returned names, kinds, sizes, modes and bytes equal the source's; 'without reading the source again' beyond the ordering; the RetainData policy.")
 	c.Assume("A1: FS contract of source and cache file systems")
 	c.RuleDoc("R10.1", "cache look-up before source; only ErrNotExist falls through")
@@ -282,6 +283,7 @@ func r10Dir(c *core.Ctx, p *load.Program, sh *cacheShape) {
 // ---------------- C11 ----------------
 
 func runC11(c *core.Ctx) {
+	runFixtures(c, "drop", "locks")
 	c.Explain("Structural clauses of C11 decided from source: (R11.1) in the cache FS's Open, the cache look-up, the source open and the fill run after Lock(name) on the per-path lock and before its release, Lock and Unlock use the same key, the Unlock is deferred (or on every exit), the fill function has no caller outside that region, and the per-path lock obtains the mutex of a key with one atomic LoadOrStore; (R11.2) on every path on which the cache file was created and the fill then fails, the partial file is invalidated (removed from the cache FS) before the error is returned; (R11.3) the Close error of the cache file opened for writing takes part in the fill's result. NOT claimed: interleavings of concurrent opens (only the lock discipline), a fault at every read/write index, cache stores that cannot remove files.")
 	c.Assume("A2: sync.Map.LoadOrStore is atomic; sync.Mutex semantics", "a cache store without RemoveFS cannot invalidate a partial file (stated limitation)")
 	c.RuleDoc("R11.1", "look-up + fill under the per-path lock")
